@@ -154,7 +154,11 @@ C14Dst == With(With(With(EmptyFs, "d", Dir(493)), "f", Reg(7, 30, 2000, 0, 420))
 C14Scn == { E2E(C14Src, C14Dst, OG(OX(r, l, p, t, dv, sp, c, I, n, del), og, gg), rs) :
               r \in BOOLEAN,        \* without -r a directory argument is skipped: nothing is listed, nothing changes - but the session still runs
               l \in BOOLEAN, p \in BOOLEAN, t \in BOOLEAN, dv \in BOOLEAN, sp \in BOOLEAN, c \in BOOLEAN, I \in BOOLEAN, n \in BOOLEAN,
-              del \in BOOLEAN, og \in BOOLEAN, gg \in BOOLEAN, rs \in {<<>>, <<[inc |-> FALSE, pat |-> "f", dir |-> FALSE]>>} }
+              del \in BOOLEAN, og \in BOOLEAN, gg \in BOOLEAN,
+              \* no rule | an exclude | an include BEFORE an exclude of the same name, the name being the extraneous entry of the
+              \* destination: first match wins, so "z" is not protected and --delete removes it - in both directions
+              rs \in {<<>>, <<[inc |-> FALSE, pat |-> "f", dir |-> FALSE]>>,
+                      <<[inc |-> TRUE, pat |-> "z", dir |-> FALSE], [inc |-> FALSE, pat |-> "z", dir |-> FALSE]>>} }
 
 (* =================================================================== C01 *)
 (* Universe = <<".", "a", "b", "d", "d/a">>: every prior destination state of *)
